@@ -384,7 +384,7 @@ func init() {
 	fw.Register(&fw.Check{
 		ID:    "C07",
 		Level: "model_checking",
-		Rule: "entry points are taken from the method sets of *EngineFacade, interfaces.Transaction, interfaces.CompactionManager and stats.Collector (reflection; a method with neither a body nor a recorded exclusion is a HARNESS-ERROR). For every unordered pair of the 22 engine-level bodies (incl. a body with itself), every pair of the 7 transaction methods on one shared transaction, transaction methods against engine traffic, and 4 triples, on an engine with 2 level-0 files, an immutable table with a pending flush and a live background flush thread: pass 1 = all interleavings with <=1 deviation (2 thorough) under the controlled scheduler; deadlock, livelock, panic, step horizon or an unusable engine is a violation (witness: blocked threads and call sites). pass 3 = the same bodies free-running in a -race build, 5 (60) iterations per group; a race report, panic, fatal error or a call that does not return within 60 s is a violation. Non-trivial = executions with a cross-thread conflict / completed iterations",
+		Rule: "entry points are taken from the method sets of *EngineFacade, interfaces.Transaction, interfaces.CompactionManager and stats.Collector (reflection; a method with neither a body nor a recorded exclusion is a HARNESS-ERROR). For every unordered pair of the 22 engine-level bodies (incl. a body with itself), every pair of the 7 transaction methods on one shared transaction, transaction methods against engine traffic, and 4 triples, on an engine with 2 level-0 files, an immutable table with a pending flush and a live background flush thread: pass 1 = all interleavings with <=1 deviation (2 thorough) under the controlled scheduler; deadlock, livelock, panic, step horizon or an unusable engine is a violation (witness: blocked threads and call sites). plus a burst of 4 writes on a 1-byte memtable (every write switches the table and wakes the background flush) with <=2 (3) deviations. pass 3 = the same bodies free-running in a -race build, 5 (60) iterations per group; a race report, panic, fatal error or a call that does not return within 60 s is a violation. Non-trivial = executions with a cross-thread conflict / completed iterations",
 		Assumptions: []string{"data races are decided by the Go race detector on free-running executions of the same bodies (sampled schedules); the exhaustive pass covers deadlock, livelock, panics and non-returning calls", "Close concurrent with other calls is out of scope"},
 		Units: func(tier string) []string {
 			var us []string
@@ -400,6 +400,8 @@ func init() {
 				}
 				us = append(us, schedSpec{g.Name, b, 0, 1}.String())
 			}
+			// a write burst on a 1-byte memtable: every write switches the table and wakes the background flush
+			us = append(us, shardUnits("tiny-burst", b+1, 4)...)
 			for _, g := range c07Groups() {
 				us = append(us, "race/"+g.Name)
 			}
@@ -421,6 +423,13 @@ func init() {
 				return c07RaceUnit(unit, env)
 			}
 			sp := parseSched(unit)
+			if sp.Name == "tiny-burst" {
+				for _, sc := range c06Scenarios() {
+					if sc.Name == sp.Name {
+						return runSched("C07", sc, sp, env, 1)
+					}
+				}
+			}
 			for _, g := range c07Groups() {
 				if g.Name == sp.Name {
 					return runSched("C07", c07Scenario(g), sp, env, 1)
@@ -433,6 +442,11 @@ func init() {
 		Replay: func(v *fw.Violation) string {
 			if w, ok := v.Witness.(map[string]any); ok && w["kind"] == "schedule" {
 				return replaySched(func(n string) *explore.Scenario {
+					for _, sc := range c06Scenarios() {
+						if sc.Name == n && n == "tiny-burst" {
+							return sc
+						}
+					}
 					for _, g := range c07Groups() {
 						if g.Name == n {
 							return c07Scenario(g)
